@@ -278,7 +278,7 @@ impl Property for C15 {
     }
     fn rule(&self) -> String {
         "compile-time Send + Sync assertions for the 8 public types; 2..16 threads share one Arc<Node> per program and one Arc<context> of each kind (HashMapContext with variables and user functions, EmptyContext, EmptyContextWithBuiltinFunctions) \
-         and evaluate every program of a batch (incl. 80 programs over the optional regex builtins with several patterns in flight) concurrently: each result must equal the sequential result; the sequential read-only results also go through the model correspondence. non-trivial = evaluation succeeds; distinct = distinct program"
+         and evaluate every program of a batch (incl. 80 programs over the optional regex builtins with several patterns in flight) concurrently: each result must equal the sequential result; 48 threads parked inside one user function at the same instant each still get the sequential result; the sequential read-only results also go through the model correspondence. non-trivial = evaluation succeeds; distinct = distinct program"
             .into()
     }
     fn cases(&self, tier: Tier, rng: &mut Rng) -> (Vec<Case>, bool) {
@@ -382,7 +382,47 @@ impl Property for C15 {
                 }
             }
         }
-        (evals, viol, vec![format!("threads-2-4-8-16-rounds-{}", rounds)])
+        // many threads INSIDE a user function / a builtin at the same instant (the function parks until all have arrived, or
+        // 3 s have passed): each evaluation must still give its sequential result — nothing may count or limit callers globally
+        {
+            use std::sync::atomic::{AtomicUsize, Ordering};
+            let n_threads = 48usize;
+            let arrived = Arc::new(AtomicUsize::new(0));
+            let mut ctx = HashMapContext::<DefaultNumericTypes>::new();
+            ctx.set_value("x".into(), Value::Int(35)).unwrap();
+            let a2 = arrived.clone();
+            ctx.set_function(
+                "hold".into(),
+                Function::new(move |v| {
+                    a2.fetch_add(1, Ordering::SeqCst);
+                    let t0 = std::time::Instant::now();
+                    while a2.load(Ordering::SeqCst) < n_threads && t0.elapsed().as_millis() < 3000 {
+                        std::thread::yield_now();
+                    }
+                    Ok(v.clone())
+                }),
+            )
+            .unwrap();
+            ctx.set_function("id".into(), Function::new(|v| Ok(v.clone()))).unwrap();
+            let ctx = Arc::new(ctx);
+            let tree = Arc::new(build_operator_tree::<DefaultNumericTypes>("hold(7) + id(x) + math::sqrt(16) + len(\"abc\")").unwrap());
+            let want = "ok F4048800000000000".to_string(); // 7 + 35 + 4.0 + 3 = 49.0
+            let hs: Vec<_> = (0..n_threads)
+                .map(|_| {
+                    let (tree, ctx) = (tree.clone(), ctx.clone());
+                    std::thread::spawn(move || enc_res(&tree.eval_with_context(&*ctx), enc_value))
+                })
+                .collect();
+            for (i, h) in hs.into_iter().enumerate() {
+                evals += 1;
+                match h.join() {
+                    Ok(got) if got == want => {},
+                    Ok(got) => viol.push((format!("\"hold(7) + id(x) + math::sqrt(16) + len(\\\"abc\\\")\" with {} threads inside `hold` at once (thread {})", n_threads, i), format!("concurrent result `{}`, sequential `{}`", got, want))),
+                    Err(_) => viol.push(("thread".into(), "an evaluating thread panicked".into())),
+                }
+            }
+        }
+        (evals, viol, vec![format!("threads-2-4-8-16-rounds-{}", rounds), "48-threads-parked-inside-a-function".into()])
     }
 }
 
